@@ -541,6 +541,15 @@ func propAbortStatusThroughWrapper(t *rapid.T) {
 	if rec.Code != code || strings.Contains(rec.Body.String(), "secret") {
 		t.Fatalf("the client does not get the abort status: %s", ctx)
 	}
+	// the aborting handler mounted as a plain http.Handler (HandlerFunc.ServeHTTP in an http.ServeMux): the status it
+	// aborts with reaches the client there too
+	mux := http.NewServeMux()
+	mux.Handle("/x", rux.HandlerFunc(mws[at]))
+	rec2 := httptest.NewRecorder()
+	mux.ServeHTTP(rec2, httptest.NewRequest("GET", "/x", nil))
+	if rec2.Code != code {
+		t.Fatalf("the aborting handler served as a plain http.Handler answers %d, AbortWithStatus(%d, message: %v)", rec2.Code, code, withMsg)
+	}
 	ev.Class(fmt.Sprintf("abort-status-through-a-buffering-writer:message=%v", withMsg))
 	ev.NonTrivial(fmt.Sprint(n, at, code, withMsg), func() string { return ctx })
 }
